@@ -273,4 +273,7 @@ func init() {
 	RegisterConverter(stringType, uuidType, func(dec *Decoder, o interface{}, p interface{}) {
 		*(*uuid.UUID)(reflect2.PtrOf(p)) = dec.stringToUUID(*(*string)(reflect2.PtrOf(o)))
 	})
+	RegisterConverter(bytesType, uuidType, func(dec *Decoder, o interface{}, p interface{}) {
+		*(*uuid.UUID)(reflect2.PtrOf(p)) = dec.bytesToUUID(*(*[]byte)(reflect2.PtrOf(o)))
+	})
 }
